@@ -208,6 +208,45 @@ class _GlobalScan(ast.NodeVisitor):
         self.globals_written |= set(node.names)
 
 
+MUTATORS = {"append", "extend", "update", "setdefault", "add", "pop", "clear", "insert", "remove", "popitem"}
+
+
+def _module_containers(tree):
+    """Names bound at module level to a mutable container ({} [] set() dict() list() defaultdict() ...)."""
+    out = set()
+    for n in tree.body:
+        if isinstance(n, ast.Assign) and isinstance(n.value, (ast.Dict, ast.List, ast.Set, ast.Call)):
+            if isinstance(n.value, ast.Call):
+                f = n.value.func
+                fn = f.id if isinstance(f, ast.Name) else getattr(f, "attr", "")
+                if fn not in ("dict", "list", "set", "defaultdict", "OrderedDict", "WeakValueDictionary", "deque"):
+                    continue
+            for t in n.targets:
+                if isinstance(t, ast.Name):
+                    out.add(t.id)
+    return out
+
+
+def _class_mutates(cls, names):
+    """Module-level containers that methods of this class mutate (X[k] = v, X.update(..), del X[k], ...)."""
+    hit = set()
+    for n in ast.walk(cls):
+        tgts = []
+        if isinstance(n, (ast.Assign, ast.Delete)):
+            tgts = n.targets
+        elif isinstance(n, ast.AugAssign):
+            tgts = [n.target]
+        for t in tgts:
+            b = t
+            while isinstance(b, ast.Subscript):
+                b = b.value
+            if isinstance(b, ast.Name) and b.id in names and b is not t:
+                hit.add(b.id)
+        if isinstance(n, ast.Call) and isinstance(n.func, ast.Attribute) and n.func.attr in MUTATORS and isinstance(n.func.value, ast.Name) and n.func.value.id in names:
+            hit.add(n.func.value.id)
+    return hit
+
+
 def extract(repo=REPO):
     root = os.path.join(repo, "openaerostruct")
     table = []
@@ -228,9 +267,13 @@ def extract(repo=REPO):
             g.visit(tree)
             if g.globals_written:
                 globs[rel] = sorted(g.globals_written)
+            cont = _module_containers(tree)
             for n in ast.walk(tree):
                 if isinstance(n, ast.ClassDef) and _is_component(n):
-                    table.append(_scan_class(n, rel))
+                    rec = _scan_class(n, rel)
+                    # module-level mutable containers that the component's methods write: state shared between instances
+                    rec["shared"] = sorted(set(rec["shared"]) | _class_mutates(n, cont))
+                    table.append(rec)
     return {"components": table, "module_globals_written": globs}
 
 
